@@ -224,6 +224,9 @@ def describe(reg):
     return 'NH.keys=%s' % sorted(reg.top)
 
 
+_MODEL = [None]
+
+
 def eval_row(f, reg, names):
     problems = []
 
@@ -233,7 +236,7 @@ def eval_row(f, reg, names):
         except Unknown as e:
             problems.append(str(e))
             return None
-    run = Run(f.node, oracle=oracle)
+    run = run_function(f, _MODEL[0], oracle=oracle)
     if problems or len(run.paths) != 1:
         raise AnalysisError(
             '%s: test outside the registry abstraction (%s) in state %s; '
@@ -259,6 +262,7 @@ def eval_row(f, reg, names):
 
 def table_rule(ctx, cname, fname, states, spec, names_of):
     m = ctx.model
+    _MODEL[0] = m
     f = m.method(cname, fname)
     names = names_of(f)
     construct = '%s.%s' % (cname, fname)
